@@ -9,10 +9,10 @@ from sa.poly import RF
 from sa.selftest import Edit, Variant
 from sa.sym import ClassRef, Rec, explore, method_of, to_rf
 
-from sa.texts import T as _T
+from sa.texts import T as _TX
 
-EXPLANATION = _T["C07"]["explanation"] + " Not decided: " + _T["C07"]["not_decided"] + "."
-ASSUMPTIONS = _T["C07"]["assumptions"]
+EXPLANATION = _TX["C07"]["explanation"] + " Not decided: " + _TX["C07"]["not_decided"] + "."
+ASSUMPTIONS = _TX["C07"]["assumptions"]
 P = "C07"
 S = RF.sym
 
@@ -30,6 +30,8 @@ def run(repo: Repo, rep: Report):
         rep.rule(rid, txt)
     sem.check_pipeline(repo, rep, {"fixpoint": "R-ORDER.cleanup-after-removal", "rounding": "R-ORDER.rounding-last", "completes": "R-EFFECT.gate-pure"})
     c09._check_round(repo, rep)
+    from sa.rules import c10
+    c10.check_ntos(repo, rep, "R-ORDER.rounding-last")
     sem.check_simplify(repo, rep, {"gradient": "R-SITE.id-allocation"})
     sem.check_gate(repo, rep, {"pure": "R-EFFECT.gate-pure", "accepts": "R-EFFECT.gate-pure"})
     sem.check_gradient_translation(repo, rep, "R-CASE.gradient-fixpoint")
@@ -79,5 +81,9 @@ VARIANTS = [
             [("R-EFFECT.gate-pure", "checkpicosvg")]),
     Variant("new id allocation in remove_unpainted_shapes", [Edit(_S, "SVG.remove_unpainted_shapes", "        self.elements = None\n\n        return self", "        self.svg_root.attrib[\"id\"] = self._new_id(\"root-%d\")\n        self.elements = None\n\n        return self")],
             [("R-", "topicosvg")]),
+    Variant("numbers with an exponent printed in fixed notation", [Edit("svg_meta", "ntos", "else str(n)", 'else (f"{n:f}" if "e" in str(n) else str(n))')],
+            [("R-ORDER.rounding-last", "ntos")]),
+    Variant("group opacity rounded after the keep decision", [Edit(_S, "SVG.round_floats", "        return self\n", '        self._update_etree()\n        for group_el in self.xpath("//svg:g[@opacity]"):\n            group_el.attrib["opacity"] = ntos(round(float(group_el.attrib["opacity"]), ndigits))\n        return self\n')],
+            [("R-ORDER.cleanup-after-removal", "topicosvg")]),
     Variant("silent: comment", [Edit(_S, "SVG.topicosvg", "        # Tidy up\n", "        # Tidy up (order matters)\n")], silent=True),
 ]
